@@ -51,6 +51,8 @@ pub struct GwRt {
     pub addr: Address,
     pub example: Address,
     pub mini: Address,
+    pub bad_example: Address,
+    pub bad_mini: Address,
     pub m: GwModel,
     /// what status queries have shown per id, for the monotonicity check
     pub seen: BTreeMap<(String, String), u8>,
@@ -145,7 +147,7 @@ impl<'a> GExec<'a> {
         let mut gws = vec![];
         for (gi, g) in cfg.gateways.iter().enumerate() {
             let owner = gi * 2;
-            let operator = gi * 2 + 1;
+            let operator = if g.operator_is_owner { owner } else { gi * 2 + 1 };
             let mut init = SVec::new(&env);
             for i in &g.initial {
                 init.push_back(mset_to_val(&env, &cfg.pool[*i % cfg.pool.len()]));
@@ -191,10 +193,16 @@ impl<'a> GExec<'a> {
             }
             let example = env.register(Example, (&addr, &gas));
             let mini = env.register(MiniApp, (&addr,));
+            // misconfigured twins: the "gateway" of one is the gas service (a contract without
+            // validate_message), of the other an address with no contract at all
+            let bad_example = env.register(Example, (&gas, &gas));
+            let bad_mini = env.register(MiniApp, (&Address::generate(&env),));
             gws.push(GwRt {
                 addr,
                 example,
                 mini,
+                bad_example,
+                bad_mini,
                 m,
                 seen: BTreeMap::new(),
                 approved_events: BTreeMap::new(),
@@ -1031,10 +1039,12 @@ impl<'a> GExec<'a> {
         let env = self.env().clone();
         let (m, payload) = self.resolve_msg(msg);
         let is_example = app % 2 == 0;
-        let app_addr = if is_example {
-            self.gws[g].example.clone()
-        } else {
-            self.gws[g].mini.clone()
+        let misconfigured = app % 4 >= 2;
+        let app_addr = match app % 4 {
+            0 => self.gws[g].example.clone(),
+            1 => self.gws[g].mini.clone(),
+            2 => self.gws[g].bad_example.clone(),
+            _ => self.gws[g].bad_mini.clone(),
         };
         let gaddr = self.gws[g].addr.clone();
         let claimed = MMsg {
@@ -1043,8 +1053,9 @@ impl<'a> GExec<'a> {
         };
         let key = (m.source_chain.clone(), m.message_id.clone());
         let st = self.gws[g].m.status.get(&key).cloned();
-        let matches = matches!(&st, Some(MsgStatus::Approved(x)) if *x == claimed);
+        let matches = !misconfigured && matches!(&st, Some(MsgStatus::Approved(x)) if *x == claimed);
         let why = match &st {
+            _ if misconfigured => "app-trusts-no-gateway",
             None => "never-approved",
             Some(MsgStatus::Executed) => "already-executed",
             Some(MsgStatus::Approved(x)) if *x == claimed => "conforming",
